@@ -638,6 +638,7 @@ type bbase struct {
 	count int
 	csLen int
 	pos   []int
+	cuts  []int // truncation points (nil = every prefix)
 }
 
 func blockTxPool() (good [][]byte, bad [][]byte, names []string, badNames []string) {
@@ -722,14 +723,53 @@ func buildBlocks(thorough bool) []bbase {
 			mk("blk/bad-"+badNames[bi]+"/"+names[x], [][]byte{bt, good[x]})
 		}
 	}
+	// many minimal transactions: the transaction COUNT at the CompactSize width boundaries
+	// (a coinbase-like transaction, then 10-byte transactions without inputs and outputs,
+	// which Core's deserialiser accepts). Byte-level mutations around both ends only.
+	many := []int{252, 253, 254}
+	if thorough {
+		many = append(many, 65536)
+	}
+	for _, n := range many {
+		b := bbase{name: fmt.Sprintf("blk/%d-minimal-txs", n), count: n}
+		cs := reftx.PutCS(nil, uint64(n))
+		b.csLen = len(cs)
+		b.enc = append(append([]byte{}, hdr...), cs...)
+		b.enc = append(b.enc, good[0]...)
+		for i := 1; i < n; i++ {
+			b.enc = append(b.enc, good[5]...)
+		}
+		L := len(b.enc)
+		for p := 0; p < L; p++ {
+			if (p < 160 || p >= L-48) && (n <= 254 || p < 100 || p >= L-16) {
+				b.cuts = append(b.cuts, p)
+				if p >= 80 && n <= 254 {
+					b.pos = append(b.pos, p)
+				}
+			}
+		}
+		l = append(l, b)
+	}
 	return l
+}
+
+// blockCutAt: the prefix length of truncation case i of a block base.
+func blockCutAt(b *bbase, i int) int {
+	if b.cuts != nil {
+		return b.cuts[i]
+	}
+	return i
 }
 
 // blockTail: bytes that may follow a block case inside a larger buffer.
 func blockTail(b *bbase, fam string, i int) []byte {
 	i >>= 1
 	if fam == "trunc" {
-		return b.enc[i:]
+		t := b.enc[blockCutAt(b, i):]
+		if len(t) > 4096 {
+			t = t[:4096]
+		}
+		return t
 	}
 	t := b.enc[80:]
 	if len(t) > 96 {
@@ -767,6 +807,9 @@ func blockFamCount(b *bbase, fam string) int {
 		n = 1
 	case "trunc":
 		n = len(b.enc)
+		if b.cuts != nil {
+			n = len(b.cuts)
+		}
 	case "count":
 		n = len(blockCounts(b))
 	case "trail":
@@ -784,7 +827,7 @@ func blockGen(b *bbase, fam string, i int) (enc []byte, dohash bool) {
 	case "id":
 		enc = append([]byte{}, b.enc...)
 	case "trunc":
-		enc = append([]byte{}, b.enc[:i]...)
+		enc = append([]byte{}, b.enc[:blockCutAt(b, i)]...)
 	case "count":
 		c := blockCounts(b)[i]
 		enc = append(append(append([]byte{}, b.enc[:80]...), c...), b.enc[80+b.csLen:]...)
@@ -796,7 +839,11 @@ func blockGen(b *bbase, fam string, i int) (enc []byte, dohash bool) {
 		case 1:
 			enc = append(enc, 0xff)
 		default:
-			enc = append(enc, b.enc[81:]...)
+			t := b.enc[80+b.csLen:]
+			if len(t) > 4096 {
+				t = t[:4096]
+			}
+			enc = append(enc, t...)
 		}
 	case "subst":
 		p, v := b.pos[i/len(alpha8)], alpha8[i%len(alpha8)]
